@@ -1,20 +1,35 @@
 """C05 - HALT idles until an enabled request and reproduces the halt bug."""
 from engine.driver import run_property, Task, LemmaTask
-from props.common import filter_tasks, TRUSTED, BASE_ASSUME
+from props.common import filter_tasks, TRUSTED, BASE_ASSUME, scan_lemma
 import props.cpu_common as cc
 
 MANIFEST = {
     "level": "proof",
-    "text": "Lemmas over the real halt/next/checkInterrupts/ExecuteMachineCycle code with IE, IF, IME and all registers symbolic: (1) executing HALT sets halted unless IME is clear and a request is already pending, in which case it sets haltbug instead, takes one cycle and changes nothing else; (2) idle invariant - halted and nothing pending: one ExecuteMachineCycle call changes no architectural CPU field, no interrupt register and performs no bus access (inductive, hence for any idle length, no bound); (3) halted, IME set, request pending: the dispatch of C04 happens in exactly 6 calls (one more than from a running CPU) with no fetch; (4) halted, IME clear, request pending: exactly one call with no bus access that changes neither IF/IE nor PC/SP/registers and clears halted, after which the instruction at PC is fetched; (5) halt bug - for every defined opcode (base and CB) executed with haltbug set, the instruction has its documented effect computed as if it were located one byte earlier (the opcode fetch does not advance PC, so the byte after HALT is decoded twice) and haltbug is cleared.",
+    "text": "Lemmas over the real halt/next/checkInterrupts/ExecuteMachineCycle code with IE, IF, IME and all registers symbolic: (1) executing HALT sets halted unless IME is clear and a request is already pending, in which case it sets haltbug instead, takes one cycle and changes nothing else; (2) idle invariant - halted and nothing pending: one ExecuteMachineCycle call changes no architectural CPU field, no interrupt register and performs no bus access (inductive, hence for any idle length, no bound); (3) halted, IME set, request pending: the dispatch of C04 happens in exactly 6 calls (one more than from a running CPU) with no fetch; (4) halted, IME clear, request pending: exactly one call with no bus access that changes neither IF/IE nor PC/SP/registers and clears halted, after which the instruction at PC is fetched; (5) halt bug - for every defined opcode (base and CB) executed with haltbug set, the instruction has its documented effect computed as if it were located one byte earlier (the opcode fetch does not advance PC, so the byte after HALT is decoded twice) and haltbug is cleared. Outside the instruction cycle: the button-press callback OnInput is verified against 'assigns cpu.stopped' (it cannot end HALT), and an SSA scan shows the halted/haltbug flags are written by halt(), checkInterrupts() and next() only.",
     "note": "Same trusted base as C01/C04. The request 'appearing' is modelled as the hardware setting an IF bit between two calls (any IF/IE value satisfying the hypothesis). A built-in canary obligation must fail on every run.",
     "technique": "sequence lemmas + an inductive idle invariant over the real go/ssa of the CPU boundary logic; z3",
     "design_ref": "DESIGN.md section 4 C05",
 }
 
 
+def halt_writers(ctx):
+    from props.common import field_writers
+    allowed = {"halted": {"(*cpu.CPU).halt", "(*cpu.CPU).checkInterrupts"}, "haltbug": {"(*cpu.CPU).halt", "(*cpu.CPU).next"}}
+    bad = {}
+    for fl, ok in allowed.items():
+        ws = field_writers(ctx.prog, "cpu.CPU", fl)
+        if not ws <= ok:
+            bad[fl] = sorted(ws - ok)
+    return not bad, "writers of the halt state outside halt()/checkInterrupts()/next(): %s" % bad
+
+
 def tasks(ctx):
     ts = [LemmaTask("lemma:halt", cc.halt_lemmas, ["(*cpu.CPU).halt", "(*cpu.CPU).checkInterrupts", "(*cpu.CPU).next", "(*cpu.CPU).ExecuteMachineCycle"])]
     ts += [cc.haltbug_task(ch, i) for i, ch in enumerate(cc.opcode_chunks(16))]
+    # nothing outside the instruction cycle ends (or starts) the idle state: the button-press callback only leaves STOP,
+    # and the halted / haltbug flags are written by halt() and the interrupt check alone
+    ts.append(Task("(*cpu.CPU).OnInput", "(*cpu.CPU).OnInput"))
+    ts.append(scan_lemma("scan:halt-state-written-only-by-halt-and-the-interrupt-check", halt_writers, ["package cpu (SSA scan)"]))
     return filter_tasks(ts)
 
 
